@@ -1,5 +1,5 @@
 #!/bin/sh
-# Must-fail corpus: every patch here breaks a property while compiling and passing the repository's own tests.
+# Must-fail corpus: every patch here breaks a property while compiling (most also pass the repository's own tests; DESIGN.md 8.5 says which do not).
 # Applies each to /repo's working tree, runs the property's quick check, expects exit 1 with a VIOLATION line,
 # and restores the tree. Run after every engine / contract change (never part of a registered check).
 # usage: selftest/run.sh [ID ...]   (default: everything)
